@@ -170,7 +170,11 @@ def run(ctx):
                 # C16.4 provenance
                 got = sorted({x[4:].split(")")[0] for x in atoms})
                 ob4.instance("field %s <- datasheet entries" % f, got)
-                if f in MIN_FIELDS + ["tREFI"] and got != sorted(exp_names):
+                if f in MIN_FIELDS and set(exp_names) < set(got) and isinstance(T, Op) and T.op == "max":
+                    # more datasheet entries than expected, combined by max(): an additional lower bound (e.g. an explicit tRC next to tRP + tRAS) can only lengthen
+                    # the timing; the expected entries must still be there as one of the arms, which the shape / margin checks below look at
+                    ob4.instance("field %s has an additional lower bound" % f, sorted(set(got) - set(exp_names)))
+                elif f in MIN_FIELDS + ["tREFI"] and got != sorted(exp_names):
                     ob4.refute("source:%s" % f, "TimingSettings.%s is converted from %s, expected the datasheet entr%s %s" %
                                (f, got, "ies" if len(exp_names) > 1 else "y", " + ".join(exp_names)), (mrel, init_line))
                 if f in ("tREFI", "tRFC"):
@@ -199,6 +203,9 @@ def run(ctx):
                 ob1.instance("%s" % f, info)
             bad = None
             if not ns_paths or not ck_paths:
+                if "<Fraction" in key(T) or "phi(is(" in key(T):
+                    ob1.unknown("%s at rate %s: the conversion is written with objects / function arguments the elaborator does not evaluate (%s)" % (f, rate, key(T)[:140]))
+                    continue
                 bad = "does not depend on both the ns and the ck component (%s)" % key(T)
             elif any(d != [UP] for d in dirs_ns):
                 bad = "nanosecond path rounding is %s, expected exactly one ceil" % dirs_ns
